@@ -317,6 +317,13 @@ impl Array4 {
     ) -> Result<Self, Error> {
         let num_bytes = 1 << (lg_config_k - 1); // k/2 bytes for 4-bit packing
 
+        // Registers are 6-bit values; cur_min + nibble is computed in u8
+        if cur_min > 63 {
+            return Err(Error::deserial(format!(
+                "cur_min must be at most 63, got {cur_min}"
+            )));
+        }
+
         // Read HIP estimator values from preamble
         let hip_accum = cursor
             .read_f64_le()
